@@ -929,3 +929,186 @@ def avdtp_send_iteration():
     return {'name': 'avdtp-send_message-iteration', 'kernel': 'bumble.avdtp.Protocol.send_message (while-loop body)',
             'bounds': 'one iteration from any loop-head state: remaining payload 0..10^6, peer MTU 4..65535, packet type single/start/continue/end consistent with the remainder: packet <= MTU, fragment is the next min(remaining, max fragment) bytes, START announces ceil(remaining / max fragment) and that measure falls by one per iteration and reaches 0 exactly when the loop ends, CONTINUE/END chosen by the remainder',
             'fn': fn, 'validate': validate, 'replay': replay, 'mutants': [(n, (lambda r=r: fn(r))) for n, r in muts]}
+
+
+# ================================================================================= C02: PacketParser.feed_data
+def packet_parser_iteration():
+    from bumble.transport import common as tc
+
+    T, LN, BD = 0, 1, 2
+
+    def symbolic(repl=None, pin=None, out=None):
+        fn = func_ast(tc.PacketParser.feed_data, repl)
+        loop = first(fn, ast.While)
+        solver = z3.Solver()
+        solver.set('timeout', 60000)
+        it = Interp(solver, stubs={'logger': _LOGGER, 'color': lambda *a: ''})
+        names = ('D', 'off', 'need', 'state', 'plen', 'i0', 'i1', 'body', 'known')
+        vc = VC(it, names)
+
+        def make_env(s):
+            D, off, need, state, plen, i0, i1, body = z3.Ints('D off need state plen i0 i1 body')
+            known = z3.Bool('known')
+            left = D - off
+            # state at the head of an iteration, as reset() and the previous iterations leave it
+            s.add(D >= 1, D <= 70000, off >= 0, left >= 0, need >= 0, need <= 70000, state >= 0, state <= 2, plen >= 0, i0 >= 1, i0 <= 2, i1 >= 1, i1 <= 2, body >= 0, body <= 65535,
+                  z3.Implies(state == T, z3.And(plen == 0, need == 1)),
+                  z3.Implies(state == LN, z3.And(plen >= 1, plen + need == 1 + i0 + i1, need >= 1)),
+                  z3.Implies(state == BD, z3.And(plen + need == 1 + i0 + i1 + body, need >= 1)))
+            for name, v in (pin or {}).items():
+                s.add({'D': D, 'off': off, 'need': need, 'state': state, 'plen': plen, 'i0': i0, 'i1': i1, 'body': body}[name] == v)
+            emitted, resets = [], []
+
+            class Packet:
+                def __init__(self):
+                    self.segs, self.n = [], plen
+
+                def extend(self, view):
+                    self.segs.extend(view.segs)
+                    self.n = self.n + view.length()
+
+                def __getitem__(self, i):
+                    return z3.Int('ptype')
+
+                def snapshot(self):
+                    return ('packet', self.n, list(self.segs))
+            pk = Packet()
+            so = Obj(bytes_needed=need, state=state, packet=pk, packet_info=None, extended_packet_info=Obj(get=lambda t: None),
+                     sink=Obj(on_packet=lambda p: emitted.append(p)))
+            so.packet_info = (i0, i1, 'fmt')
+
+            def reset():
+                resets.append(1)
+                so.state, so.bytes_needed, so.packet_info = T, 1, None
+                so.packet = Packet()
+                so.packet.n = z3.IntVal(0)
+            so.reset = reset
+
+            class Info:
+                @staticmethod
+                def get(t):
+                    # the fork on `known` happens where the code tests the result
+                    return KnownOrNone(known, (i0, i1, 'fmt'))
+            env = {'self': so, 'data': SBytes.base('data', D), 'data_offset': off, 'data_left': left,
+                   'PacketParser': Obj(NEED_TYPE=T, NEED_LENGTH=LN, NEED_BODY=BD), 'HCI_PACKET_INFO': Info, 'struct': Obj(unpack_from=lambda fmt, buf, o: (body,)),
+                   'bytes': lambda p: p.snapshot(), 'core': Obj(InvalidPacketError=lambda m: m)}
+            return env, dict(D=D, off=off, left=left, need=need, state=state, plen=plen, i0=i0, i1=i1, body=body, known=known, so=so, pk=pk, emitted=emitted, resets=resets)
+
+        class KnownOrNone:
+            """the result of the table look-up: the info tuple when the type is known, else None (decided by a fork)"""
+
+            def __init__(self, cond, value):
+                self.cond, self.value = cond, value
+
+        orig_truth = it.truth
+
+        def truth(c):
+            if isinstance(c, KnownOrNone):
+                return orig_truth(c.cond)
+            return orig_truth(c)
+        it.truth = truth
+        orig_boolop = it.ev_BoolOp
+
+        def ev_BoolOp(n, env):
+            r = orig_boolop(n, env)
+            return r
+        it.ev_BoolOp = ev_BoolOp
+        orig_assign = it.assign
+
+        def assign(t, v, env):
+            # `self.packet_info = lookup or lookup2`: a known type yields the tuple, an unknown one None
+            if isinstance(v, KnownOrNone):
+                v = v.value if orig_truth(v.cond) else None
+            orig_assign(t, v, env)
+        it.assign = assign
+
+        def on_path(env, ctx, it, ret):
+            D, off, left, need, state, plen, i0, i1, body, known, so, pk, emitted = (ctx[k] for k in ('D', 'off', 'left', 'need', 'state', 'plen', 'i0', 'i1', 'body', 'known', 'so', 'pk', 'emitted'))
+            consumed = z3.If(need <= left, need, left)
+            if out is not None:
+                out.append(_ints(None, it.solver, [env['data_offset'], env['data_left'], so.bytes_needed, so.state, z3.IntVal(len(emitted)), (emitted[0][1] if emitted else z3.IntVal(-1))]) + [ret if isinstance(ret, tuple) else None])
+                return
+            took = pk.segs[0] if pk.segs else None
+            copied = z3.And(took[1] == off, took[2] == consumed, z3.BoolVal(took[0] == 'data')) if (took is not None and len(pk.segs) == 1) else z3.BoolVal(False)
+            need1 = need - consumed
+            raised = isinstance(ret, tuple) and ret[0] == 'raise'
+            base = z3.And(consumed >= 1, env['data_offset'] == off + consumed, env['data_left'] == left - consumed, env['data_offset'] + env['data_left'] == D, copied)
+            if raised:
+                ok = z3.And(base, state == T, need1 == 0, z3.Not(known), so.state == T, so.bytes_needed == 1, z3.BoolVal(not emitted), so.packet.n == 0)
+            else:
+                whole = 1 + i0 + i1 + body
+                emit_now = z3.Or(z3.And(state == BD, need1 == 0), z3.And(state == LN, need1 == 0, body == 0))
+                if emitted:
+                    ok = z3.And(base, emit_now, z3.BoolVal(len(emitted) == 1), emitted[0][1] == plen + consumed, emitted[0][1] == whole,
+                                so.state == T, so.bytes_needed == 1, so.packet.n == 0)
+                else:
+                    ok = z3.And(base, z3.Not(emit_now),
+                                z3.If(need1 > 0, z3.And(so.state == state, so.bytes_needed == need1, so.packet.n == plen + consumed),
+                                      z3.If(state == T, z3.And(known, so.state == LN, so.bytes_needed == i0 + i1, so.packet.n == 1),
+                                            z3.And(state == LN, so.state == BD, so.bytes_needed == body, body >= 1, so.packet.n == plen + consumed))))
+            vc.must(ok)
+        it.explore(loop.body, make_env, on_path, entry=lambda it, env: it.require(loop.test, env))
+        return vc, it
+
+    class Sink:
+        def __init__(self):
+            self.p = []
+
+        def on_packet(self, b):
+            self.p.append(bytes(b))
+
+    def real_ok(stream, cuts):
+        s1, s2 = Sink(), Sink()
+        a, b = tc.PacketParser(s1), tc.PacketParser(s2)
+        a.feed_data(stream)
+        prev = 0
+        for c in sorted(set(cuts)) + [len(stream)]:
+            b.feed_data(stream[prev:c])
+            prev = c
+        return s1.p == s2.p and b''.join(s1.p) == stream
+
+    def validate():
+        ev = bytes([4, 0x0E, 3, 1, 2, 3])
+        acl = bytes([2, 1, 0, 4, 0, 9, 9, 9, 9])
+        cmd0 = bytes([1, 3, 0x0C, 0])
+        stream = ev + acl + cmd0 + ev
+        n = 0
+        for cuts in ([], [1], [2], [3, 4], [5, 6, 7], list(range(1, len(stream)))):
+            if not real_ok(stream, cuts):
+                return False, f'the real PacketParser does not re-frame the reference stream at cuts {cuts}'
+            n += 1
+        # interpreter vs real on concrete loop-head states of that stream
+        for (off, need, state, plen, i0, i1, body) in ((0, 1, T, 0, 1, 1, 3), (1, 2, LN, 1, 1, 1, 3), (3, 3, BD, 3, 1, 1, 3), (6, 1, T, 0, 2, 2, 4)):
+            o = []
+            symbolic(pin={'D': len(stream), 'off': off, 'need': need, 'state': state, 'plen': plen, 'i0': i0, 'i1': i1, 'body': body}, out=o)
+            got = [x for x in o if x[6] is None]
+            p = tc.PacketParser(Sink())
+            p.feed_data(stream[:off])
+            before = len(p.sink.p)
+            # one iteration = feeding exactly the bytes it consumes
+            k = min(need, len(stream) - off)
+            p.feed_data(stream[off:off + k])
+            want = [off + k, len(stream) - off - k, p.bytes_needed, p.state, len(p.sink.p) - before]
+            if not got or [g[:5] for g in got][0] != want:
+                return False, f'interpreter {got} vs real {want} at offset {off}'
+            n += 1
+        return True, f'{n} concrete checks: the real parser re-frames a 25-byte reference stream under 6 chunkings, and 4 loop-head states agree with the interpreter'
+
+    def fn(repl=None):
+        vc, it = symbolic(repl)
+        return _status(vc, it)
+
+    def replay(model):
+        ev = bytes([4, 0x0E, 3, 1, 2, 3])
+        acl = bytes([2, 1, 0, 4, 0, 9, 9, 9, 9])
+        cmd0 = bytes([1, 3, 0x0C, 0])
+        stream = ev + acl + cmd0 + ev + acl
+        bad = [c for c in range(1, len(stream)) if not real_ok(stream, [c])] + ([] if real_ok(stream, list(range(1, len(stream)))) else ['all'])
+        return bool(bad), f'real PacketParser on the reference stream: {"re-framing differs at cuts " + str(bad[:5]) if bad else "identical packets under every single cut and byte-wise feeding"}'
+
+    muts = [('emits-one-byte-early', ('if self.state == PacketParser.NEED_BODY and not self.bytes_needed:', 'if self.state == PacketParser.NEED_BODY and self.bytes_needed <= 1:')),
+            ('offset-not-advanced', ('data_offset += consumed', 'data_offset += 0')),
+            ('length-phase-skips-a-byte', ('self.bytes_needed = self.packet_info[0] + self.packet_info[1]', 'self.bytes_needed = self.packet_info[0] + self.packet_info[1] - 1'))]
+    return {'name': 'packetparser-feed_data-iteration', 'kernel': 'bumble.transport.common.PacketParser.feed_data (while-loop body)',
+            'bounds': 'one iteration from any loop-head state (chunk of 1..70000 bytes at any offset; phase type / length / body with the bytes still needed consistent with the packet so far; header geometry 1..2 + 1..2 bytes; body length 0..65535; known or unknown type byte): exactly min(needed, left) bytes are copied from the chunk at the current offset, offset + left is conserved, the phase advances only when its bytes are complete, a packet is emitted exactly when header + body are complete (zero-length bodies at once) with exactly that many bytes, an unknown type resets and raises',
+            'fn': fn, 'validate': validate, 'replay': replay, 'mutants': [(n, (lambda r=r: fn(r))) for n, r in muts]}
